@@ -245,3 +245,11 @@ mod tests {
         assert_eq!(hash2, hash1);
     }
 }
+
+#[cfg(feature = "verif-hooks")]
+impl XxHash64 {
+    /// Verification hook: (bytes currently buffered, total bytes written so far).
+    pub fn verif_buf_state(&self) -> (usize, u64) {
+        (self.buffer_len, self.total_len)
+    }
+}
